@@ -265,6 +265,10 @@ def render(case):
         # temporaries allocated anew in every iteration, next to the index computations
         loop_allocs = "\n".join(f"      {t} = memref.alloc() : {TILE}" for t in tiles) + "\n"
         allocs = ""
+    if tile_kind == "loopview":
+        # the tiles are views into one scratchpad, taken inside the loop at positions that do not depend on the counter
+        allocs = f"    %scratch = memref.alloc() : memref<{NT * len(tiles)}xi32>"
+        loop_allocs = "\n".join(f"      {t} = memref.subview %scratch[{NT * k}] [{NT}] [1] : memref<{NT * len(tiles)}xi32> to {SUB}" for k, t in enumerate(tiles)) + "\n"
     extra = case[6] if len(case) > 6 else None
     # a second, barrier-free loop in the same function that shares the bound constants with the pipelined one
     other = f"""    scf.for %j = %l to %u step %s {{
@@ -481,6 +485,7 @@ def run(chk):
                 cases.append((S_, tiles_, stages_, loop, NT, tk))
             if nm in ("chain3", "skip3") and loop[0] == "const" and loop[2] in (2, 4, 5):
                 cases.append((S_, tiles_, stages_, loop, NT, "loopalloc"))
+                cases.append((S_, tiles_, stages_, loop, NT, "loopview"))
             if nm == "chain3" and loop[0] == "const" and loop[2] in (0, 2, 4):
                 for extra in ("after", "before"):
                     cases.append((S_, tiles_, stages_, loop, NT, "alloc", extra))
